@@ -485,6 +485,7 @@ RULES = [
     ("C15.listtrav", rule_listtrav),
     ("C15.sig", lambda c, r: _sig(c, r)),
     ("C15.leave", rule_leave),
+    ("C15.lockorder", lambda c, r: pat.shared(__import__("sa.rules.c02", fromlist=["x"]).rule_lockorder, "C15.lockorder", lambda x: x["instance"].startswith("bp.") or x["status"] != "pass")(c, r)),   # registration takes rcu_registry_lock: an inverted order against rcu_gp_lock deadlocks it against a running grace period
     ("C15.gpsleep", lambda c, r: pat.shared(__import__("sa.rules.c02", fromlist=["x"]).rule_locks, "C15.gpsleep", lambda x: "no-sleep-with-registry-lock" in x["instance"] or x["status"] != "pass")(c, r)),   # `at any moment relative to running grace periods`: a grace period that sleeps with rcu_registry_lock held keeps every (un)registration - bp's lazy registration from inside a critical section included - blocked until the readers it waits for leave
 ]
 
